@@ -73,16 +73,21 @@ impl UserDefinedDataReader {
         }
     }
 
+    /// Returns whether this is a new match. An update of an already matched writer (same key, e.g. after a change of
+    /// its user data) only replaces what is known about it: it is not another match and the status does not change
     pub fn add_matched_publication(
         &mut self,
         publication_builtin_topic_data: PublicationBuiltinTopicData,
-    ) {
+    ) -> bool {
         match self
             .matched_publication_list
             .iter_mut()
             .find(|x| x.key() == publication_builtin_topic_data.key())
         {
-            Some(x) => *x = publication_builtin_topic_data,
+            Some(x) => {
+                *x = publication_builtin_topic_data;
+                return false;
+            }
             None => self
                 .matched_publication_list
                 .push(publication_builtin_topic_data),
@@ -91,6 +96,7 @@ impl UserDefinedDataReader {
         self.subscription_matched_status.current_count_change += 1;
         self.subscription_matched_status.total_count += 1;
         self.subscription_matched_status.total_count_change += 1;
+        true
     }
 
     pub fn remove_matched_publication(&mut self, publication_handle: &InstanceHandle) {
